@@ -1013,6 +1013,14 @@ func unmarshal(r *http.Request, data []byte, v interface{}) error {
 			_, err := unmarshaler.UnmarshalMsg(data)
 			return err
 		}
+		// The generic decoder recurses without a depth limit and allocates for
+		// whatever array length a header announces. Walk the document once with
+		// msgp.Skip, which is bounded in depth and allocates nothing, so that
+		// truncated or absurdly nested bodies are answered with an error instead
+		// of a stack overflow or an out-of-memory crash.
+		if _, err := msgp.Skip(data); err != nil {
+			return err
+		}
 		decoder := msgpack.NewDecoder(bytes.NewReader(data))
 		decoder.UseLooseInterfaceDecoding(true)
 		return decoder.Decode(v)
